@@ -160,6 +160,7 @@ type (
 	validatorDelWithdrawChange struct {
 		address *common.Address
 		prev    *WithdrawRecord
+		index   int // position the record was removed from
 	}
 )
 
@@ -176,6 +177,7 @@ func (ch validatorCreateChange) dirtied() *common.Address {
 
 func (ch validatorDeleteChange) revert(s *StateDB) {
 	s.setValidator(ch.oldVal)
+	s.incrValidatorsStat(ch.oldVal)
 }
 
 func (ch validatorDeleteChange) dirtied() *common.Address {
@@ -206,7 +208,7 @@ func (ch validatorAddUBDChange) dirtied() *common.Address {
 
 func (ch validatorDelWithdrawChange) revert(s *StateDB) {
 	if queue, err := s.getWithdrawQueue(); err == nil && queue != nil {
-		queue.Add(ch.prev)
+		queue.Insert(ch.index, ch.prev)
 	}
 }
 
